@@ -53,6 +53,8 @@ OUT_EQB = f"(list_eqb (pair_eqb (pair_eqb {T_EQB} {T_EQB}) N.eqb))"
 KEY_COERCE = "stream-input-region-leaks-when-server-refuses-the-input-schema"
 KEY_SDRAIN = "stream-output-region-leaks-when-exception-level-log-precedes-the-batch"
 KEY_UDRAIN = "unary-result-region-leaks-when-exception-level-log-precedes-the-result"
+KEY_SDRAIN_CB = "stream-output-region-leaks-when-on-log-raised-before-the-batch"
+KEY_UDRAIN_CB = "unary-result-region-leaks-when-on-log-raised-before-the-result"
 
 PAGE = 4096
 HEADER = 65536
@@ -88,7 +90,7 @@ def gen_call(rng: Any, thresh: int, tagger: Any, faults: bool) -> list[Any]:
     f = (lambda p: faults and rng.random() < p)
     if r < 0.30:
         size = _n_around(rng, thresh)
-        return ["unary", {"size": size, "fill": tagger(), "exclog": f(0.08), "raise": rng.random() < 0.08, "req": (_n_around(rng, thresh) if rng.random() < 0.4 else None)}]
+        return ["unary", {"size": size, "fill": tagger(), "exclog": (xl := f(0.06)), "cb": (not xl) and f(0.06), "raise": rng.random() < 0.08, "req": (_n_around(rng, thresh) if rng.random() < 0.4 else None)}]
     if r < 0.42:
         return ["release", rng.randint(0, 3)]
     producer = rng.random() < 0.45
@@ -106,7 +108,8 @@ def gen_call(rng: Any, thresh: int, tagger: Any, faults: bool) -> list[Any]:
             {
                 "in": None if producer else _spec(rng, in_shape, thresh, tagger()),
                 "bad": si == 0 and (not producer) and in_shape != "zero" and f(0.15),  # one schema per input stream: only the first input can be refused
-                "exclog": f(0.08),
+                "exclog": (xl := f(0.08)),
+                "cb": (not xl) and f(0.08),  # never both: the drain would call the raising callback again
                 "out": o,
                 "rel": rng.random() < 0.5,
             }
@@ -141,6 +144,10 @@ def targeted() -> list[dict[str, Any]]:
     add("producer-finish", [pr([T(out=["i8", big, 1]), T(out=["i8", big, 2], rel=True), T()]), ["release", 0]])
     add("producer-raise", [pr([T(out=["i8", big, 1]), T(out="raise")])])
     add("producer-exclog", [pr([T(out=["i8", big, 1]), T(out=["i8", big, 2], exclog=True)]), pr([T(out=["i8", big, 3], rel=True)])])
+    add("exchange-callback-raises-then-cancel", [ex([T(**{"in": ["i8", big, 1], "out": ["i8", big, 2]}), T(**{"in": ["i8", big, 3], "out": ["i8", big, 4], "cb": True})], after="cancel"), un()])
+    add("exchange-callback-raises-then-close", [ex([T(**{"in": ["i8", big, 1], "out": ["i8", big, 2], "cb": True})]), un()])
+    add("producer-callback-raises-then-cancel", [pr([T(out=["i8", big, 1], cb=True)], after="cancel"), pr([T(out=["i8", big, 3], rel=True)], after="cancel")])
+    add("unary-callback-raises", [un(cb=True), un(cb=True, req=big), un()])
     add("producer-exclog-finish", [pr([T(out="finish", exclog=True)])])
     add("producer-cancel", [pr([T(out=["i8", big, 1])], after="cancel")])
     add("dictionary", [["stream", {"in": "dict", "out": "dict", "after": "close", "steps": [T(**{"in": ["dict", big, 1], "out": ["dict", big, 2]}), T(**{"in": ["dict", big, 3], "out": ["dict", big + 1, 4], "rel": True})]}]])
@@ -202,7 +209,7 @@ def model_history(history: list[Any], ids: _Ids) -> str:
             else:
                 ub = d.unary_result_batch(int(arg["size"]), int(arg["fill"]))
                 res = f"(Some {_c_batch(ids.of(d.content_key(ub)), d.measure(ub))})"
-            calls.append(f"CUnary {req} {cbool(bool(arg.get('exclog')))} {res}")
+            calls.append(f"CUnary {req} {cbool(bool(arg.get('exclog') or arg.get('cb')))} {res}")
         elif kind == "release":
             calls.append(f"CRelease {int(arg)}%nat")
         else:
@@ -210,7 +217,7 @@ def model_history(history: list[Any], ids: _Ids) -> str:
             for t in arg["steps"]:
                 i = "None" if t["in"] is None else f"(Some {spec_batch(t['in'], bool(t.get('bad')))})"
                 o = {"raise": "ORaise", "finish": "OFinish"}.get(t["out"]) if isinstance(t["out"], str) else f"(OEmit {spec_batch(t['out'])})"
-                steps.append(f"mk_sstep {i} {cbool(bool(t.get('bad')))} {cbool(bool(t.get('exclog')))} {o} {cbool(bool(t.get('rel')))}")
+                steps.append(f"mk_sstep {i} {cbool(bool(t.get('bad')))} {cbool(bool(t.get('exclog') or t.get('cb')))} {o} {cbool(bool(t.get('rel')))}")
             calls.append("CStream [" + "; ".join(steps) + "]")
     return "[" + ";\n   ".join(calls) + "]"
 
@@ -225,14 +232,16 @@ def _features(call: list[Any]) -> set[str]:
     f: set[str] = set()
     if kind == "unary" and arg.get("exclog") and not arg.get("raise"):
         f.add("unary-exclog")
+    elif kind == "unary" and arg.get("cb") and not arg.get("raise"):
+        f.add("unary-cb")
     if kind == "stream":
         for t in arg["steps"]:
             if t["in"] is not None and t.get("bad"):
                 f.add("bad-input")
                 break
-            if t.get("exclog"):
+            if t.get("exclog") or t.get("cb"):
                 if not isinstance(t["out"], str):
-                    f.add("stream-exclog")
+                    f.add("stream-exclog" if t.get("exclog") else "stream-cb")
                 break
             if isinstance(t["out"], str):
                 break
@@ -259,7 +268,10 @@ def run(ctx: Any) -> None:
     try:
         flags = t_c29_src.flags(ctx.repo)
     except TranslationBroken:
+        # translation broken: the correspondence below runs the model with the as-found shapes, so histories through
+        # a repaired site then disagree (model predicts the leak) -- the translate obligation is the one to look at
         flags = (False, False, False)
+        ctx.notes.append("source-shape flags could not be read; model run with (false, false, false)")
     ctx.tally("source_flags", str(flags))
     quick = ctx.tier == "quick"
     rng = ctx.rng
@@ -331,7 +343,7 @@ def run(ctx: Any) -> None:
                 ctx.violation("held-batch-region-not-live", "a batch the caller holds has no live region", {**replay, "call": ci, "table": ca["table"]})
             if excess > excess_prev:
                 feats = _features(hist[ci])
-                key = KEY_COERCE if "bad-input" in feats else KEY_SDRAIN if "stream-exclog" in feats else KEY_UDRAIN if "unary-exclog" in feats else "region-leak-unclassified"
+                key = KEY_COERCE if "bad-input" in feats else KEY_SDRAIN if "stream-exclog" in feats else KEY_UDRAIN if "unary-exclog" in feats else KEY_SDRAIN_CB if "stream-cb" in feats else KEY_UDRAIN_CB if "unary-cb" in feats else "region-leak-unclassified"
                 leaks_seen[key] = leaks_seen.get(key, 0) + 1
                 ctx.violation(key, f"after call {ci} the segment has {len(ca['table'])} live regions but the caller holds {ca['held_shm']} shm batches", {**replay, "call": ci, "table": ca["table"]})
             excess_prev = max(excess, excess_prev)
